@@ -669,6 +669,278 @@ def synth2q_stream(ctx, cirq, mods, conv, inputs, checks, sub):
 
 
 # =====================================================================================================
+# Stream 4: single-qubit forms
+# =====================================================================================================
+ROUTINES.update({
+    'deconstruct_single_qubit_matrix_into_angles': 'docstring: U = Z^(phi2/pi) Y^(phi1/pi) Z^(phi0/pi) "will produce the same effect" (global phase ignored); no tolerance stated and no atol argument: 1e-8 x 10 = 1e-7.',
+    'axis_angle': 'docstring: U = g exp(-i theta/2 (xX+yY+zZ)), unit axis; canonicalize(): x+y+z >= 0 and -pi+atol < theta <= pi+atol (atol 1e-8), except at the documented axis singularity near theta = 0; compared EXACTLY (g is returned); no tolerance stated: 1e-7.',
+    'single_qubit_matrix_to_pauli_rotations': 'docstring: (Pauli, half_turns) pairs that applied in order perform the operation; atol = "limit on the amount of absolute error": residual <= atol + 2e-8 (floor for atol=0: sqrt of binary64 epsilon, 1.5e-8) up to phase; "few rotations": at most 3.',
+    'single_qubit_matrix_to_gates': 'docstring: gates that applied in order perform the operation; tolerance = "limit on the amount of error": residual <= tolerance + 2e-8 up to phase; at most 3 gates.',
+    'single_qubit_matrix_to_phased_x_z': 'docstring: a PhasedX and a Z gate, either omitted when not needed: at most 2 gates; residual <= atol + 2e-8 up to phase.',
+    'single_qubit_matrix_to_phxz': 'docstring: one PhasedXZGate, or None if the matrix is close to identity (trace distance <= atol); residual <= atol + 2e-8 up to phase.',
+    'PhasedXZGate.from_matrix': 'no docstring: a PhasedXZGate with the same unitary up to phase; 1e-7.',
+})
+
+
+def one_qubit_inputs(ctx, cirq, n_random):
+    rng = ctx.rng
+    out = []
+    I = np.eye(2, dtype=complex)
+    X, Y, Z = (np.asarray(cirq.unitary(g), dtype=complex) for g in (cirq.X, cirq.Y, cirq.Z))
+    rot = lambda P, t: math.cos(t / 2) * I - 1j * math.sin(t / 2) * P
+    named = [('identity', I), ('-identity', -I), ('i*identity', 1j * I), ('X', X), ('Y', Y), ('Z', Z), ('H', cirq.unitary(cirq.H)), ('S', cirq.unitary(cirq.S)),
+             ('T', cirq.unitary(cirq.T)), ('S**-1', cirq.unitary(cirq.S ** -1)), ('X**0.5', cirq.unitary(cirq.X ** 0.5)), ('Y**0.5', cirq.unitary(cirq.Y ** 0.5)),
+             ('Y**-0.5', cirq.unitary(cirq.Y ** -0.5)), ('-iX', -1j * X), ('HS', cirq.unitary(cirq.H) @ cirq.unitary(cirq.S))]
+    for i, c in enumerate(cirq.SingleQubitCliffordGate.all_single_qubit_cliffords):
+        named.append((f'clifford#{i}', cirq.unitary(c)))
+    for pn, P in (('x', X), ('y', Y), ('z', Z)):
+        for tn, t in (('pi/2', math.pi / 2), ('pi', math.pi), ('-pi/2', -math.pi / 2), ('2pi', 2 * math.pi), ('pi/4', math.pi / 4), ('0.3', 0.3)):
+            named.append((f'r{pn}({tn})', rot(P, t)))
+            for d in (1e-10, 1e-9, -1e-9, 2e-9, 1e-8, -1e-8):
+                named.append((f'r{pn}({tn}){d:+.0e}', rot(P, t + d)))
+        for d in (1e-10, 1e-9, -1e-9, 2e-9, 1e-8, -1e-8, 1e-7):
+            named.append((f'r{pn}(0){d:+.0e}', rot(P, d)))
+    for d in (1e-10, 1e-9, 1e-8):                                  # |U00| within d of 0 or 1, off-axis
+        named.append((f'ry(pi){d:+.0e}*rz(0.7)', rot(Y, math.pi + d) @ rot(Z, 0.7)))
+        named.append((f'rz(0.4)*ry(0){d:+.0e}*rz(0.7)', rot(Z, 0.4) @ rot(Y, d) @ rot(Z, 0.7)))
+        named.append((f'h*rz({d:.0e})', cirq.unitary(cirq.H) @ rot(Z, d)))
+    for name, u in named:
+        out.append((name, np.asarray(u, dtype=complex)))
+        r = name_rng('1q:' + name)
+        out.append((name + '*phase', cmath.exp(1j * r.uniform(0, 6.28)) * np.asarray(u, dtype=complex)))
+    for _ in range(n_random):
+        out.append(('random:haar', gates.random_unitary(rng, 2)))
+    return out
+
+
+def run_1q(ctx, cirq, mods, conv, checks, routine, opts, name, u):
+    q = [cirq.LineQubit(0)]
+    nt = 'identity' not in name
+    rep = dict(kind='1q', routine=routine, opts=opts, input_class=name, matrix=cmat(u))
+    atol = opts.get('atol', 0)
+    tol = atol + 2e-8          # sqrt(binary64 epsilon) = 1.5e-8: identity tests through cos^2 cannot resolve smaller angles
+
+    def raised(e):
+        ctx.violation(f'{routine}:raises:{cls(name)}', f'{routine}({opts}) raised {type(e).__name__}: {e} on {name}', rep)
+
+    def count_le(ops, k, text):
+        if len(ops) > k:
+            ctx.violation(f'{routine}:count:{cls(name)}', f'{routine}({opts}) on {name}: {text}; got {[str(o) for o in ops]}', rep)
+
+    try:
+        if routine == 'deconstruct_single_qubit_matrix_into_angles':
+            p0, p1, p2 = (float(x) for x in cirq.deconstruct_single_qubit_matrix_into_angles(u))
+            ops = [(cirq.Z ** (p0 / math.pi)).on(q[0]), (cirq.Y ** (p1 / math.pi)).on(q[0]), (cirq.Z ** (p2 / math.pi)).on(q[0])]
+            add_ops_checks(ctx, conv, checks, routine, opts, name, u, ops, q, 1e-7, True, None, nt)
+        elif routine == 'axis_angle':
+            a = cirq.axis_angle(u)
+            x, y, z = (float(v) for v in a.axis)
+            th = float(a.angle)
+            c, sn = math.cos(-th / 2), math.sin(-th / 2)
+            ctx.count(routine, [name, rep['matrix']], nt, sample=dict(input_class=name, angle=th, axis=[x, y, z], global_phase=str(a.global_phase)))
+            checks.append((routine, f'fcll_close {fl(1e-7)} (axis_angle_m {gates.fc(a.global_phase)} {fl(c)} {fl(sn)} {fl(x)} {fl(y)} {fl(z)}) {gates.fmat(u)}',
+                           f'axis_angle on {name}: g exp(-i theta/2 (xX+yY+zZ)) with theta={th}, axis={a.axis}, g={a.global_phase} differs from the input by more than 1e-7',
+                           dict(rep, signature=f'axis_angle:reconstruct:{cls(name)}')))
+            singular = th == 0 and (x, y, z) == (1.0, 0.0, 0.0)
+            if not singular:
+                checks.append((routine + ':canonical', f'axis_canonical_f {fl(1e-8)} {fl(th)} {fl(x)} {fl(y)} {fl(z)}',
+                               f'axis_angle on {name}: not canonical (unit axis with x+y+z>=0, -pi+1e-8 < theta <= pi+1e-8): theta={th}, axis={a.axis}',
+                               dict(rep, signature=f'axis_angle:canonical:{cls(name)}')))
+                ctx.count(routine + ':canonical', [name, rep['matrix']], nt)
+        elif routine == 'single_qubit_matrix_to_pauli_rotations':
+            rots = cirq.single_qubit_matrix_to_pauli_rotations(u, atol)
+            ops = [(p ** float(ht)).on(q[0]) for p, ht in rots]
+            count_le(ops, 3, 'more than 3 rotations')
+            add_ops_checks(ctx, conv, checks, routine, opts, name, u, ops, q, tol, True, None, nt)
+        elif routine == 'single_qubit_matrix_to_gates':
+            ops = [g.on(q[0]) for g in cirq.single_qubit_matrix_to_gates(u, atol)]
+            count_le(ops, 3, 'more than 3 gates')
+            add_ops_checks(ctx, conv, checks, routine, opts, name, u, ops, q, tol, True, None, nt)
+        elif routine == 'single_qubit_matrix_to_phased_x_z':
+            gs = cirq.single_qubit_matrix_to_phased_x_z(u, atol)
+            ops = [g.on(q[0]) for g in gs]
+            count_le(ops, 2, 'more than a PhasedX and a Z gate')
+            if len(gs) == 2 and not isinstance(gs[1], cirq.ZPowGate):
+                ctx.violation(f'{routine}:form:{cls(name)}', f'{routine} on {name}: second gate {gs[1]!r} is not a Z gate', rep)
+            add_ops_checks(ctx, conv, checks, routine, opts, name, u, ops, q, tol, True, None, nt)
+        elif routine == 'single_qubit_matrix_to_phxz':
+            g = cirq.single_qubit_matrix_to_phxz(u, atol)
+            if g is not None and not isinstance(g, cirq.PhasedXZGate):
+                ctx.violation(f'{routine}:form:{cls(name)}', f'{routine} on {name}: returned {g!r}', rep)
+                return
+            add_ops_checks(ctx, conv, checks, routine, opts, name, u, [] if g is None else [g.on(q[0])], q, tol, True, None, nt)
+        elif routine == 'PhasedXZGate.from_matrix':
+            g = cirq.PhasedXZGate.from_matrix(u)
+            add_ops_checks(ctx, conv, checks, routine, opts, name, u, [g.on(q[0])], q, 1e-7, True, None, nt)
+        else:
+            raise KeyError(routine)
+    except KeyError:
+        raise
+    except Exception as e:
+        raised(e)
+
+
+ROUTINES_1Q = ['deconstruct_single_qubit_matrix_into_angles', 'axis_angle', 'single_qubit_matrix_to_pauli_rotations', 'single_qubit_matrix_to_gates',
+               'single_qubit_matrix_to_phased_x_z', 'single_qubit_matrix_to_phxz', 'PhasedXZGate.from_matrix']
+
+
+def one_qubit_stream(ctx, cirq, mods, conv, inputs, checks):
+    for k, (name, u) in enumerate(inputs):
+        for routine in ROUTINES_1Q:
+            if routine.startswith('single_qubit'):
+                atols = [0, 1e-8] if k % 3 else [0, 1e-6]
+                for atol in atols:
+                    run_1q(ctx, cirq, mods, conv, checks, routine, dict(atol=atol), name, u)
+            else:
+                run_1q(ctx, cirq, mods, conv, checks, routine, {}, name, u)
+
+
+# =====================================================================================================
+# Stream 5: linear-algebra factorisations
+# =====================================================================================================
+ROUTINES.update({
+    'kron_factor_4x4_to_2x2s': 'docstring: (g, f1, f2) with g*kron(f1,f2) equal to the matrix, f1 and f2 of unit determinant; rtol=1e-5/atol=1e-8 are the stated per-entry tolerances on equality: |diff| <= atol + rtol*|entry|; det within 1e-7.',
+    'so4_to_magic_su2s': 'docstring: A, B in SU(2) with Mag^dagger kron(A,B) Mag approximately the given SO(4) matrix; per-entry atol + rtol*|entry| as stated; A, B special unitary within 1e-7.',
+    'bidiagonalize_unitary_with_special_orthogonals': 'docstring: (L, d, R) with L @ mat @ R = diag(d), L and R orthogonal with determinant 1; atol = "absolute numeric error threshold" 1e-8, no bound on the result stated: x 10 = 1e-7.',
+    'bidiagonalize_real_matrix_pair_with_symmetric_products': 'docstring: orthogonal L, R such that L @ mat1 @ R and L @ mat2 @ R are diagonal; atol 1e-8 x 10 = 1e-7 on the off-diagonal entries.',
+    'diagonalize_real_symmetric_matrix': 'docstring: orthogonal P with P.T @ matrix @ P diagonal; 1e-7.',
+    'diagonalize_real_symmetric_and_sorted_diagonal_matrices': 'docstring: orthogonal P with P.T @ symmetric @ P diagonal and P.T @ diagonal @ P = diagonal (up to tolerance); 1e-7.',
+    'map_eigenvalues': 'docstring: f(M) = sum_k f(a_k)|v_k><v_k|; checked with f = square against M @ M and f = identity against M; atol 1e-8 x 10 = 1e-7.',
+    'unitary_eig': 'docstring: eigenvalues and a unitary V of eigenvector columns (V diag(vals) V^dagger = matrix); atol 1e-8 x 10 = 1e-7.',
+})
+ROUTINES_LA = ['kron_factor_4x4_to_2x2s', 'so4_to_magic_su2s', 'bidiagonalize_unitary_with_special_orthogonals', 'bidiagonalize_real_matrix_pair_with_symmetric_products',
+               'diagonalize_real_symmetric_matrix', 'diagonalize_real_symmetric_and_sorted_diagonal_matrices', 'map_eigenvalues', 'unitary_eig']
+MAGIC = np.array([[1, 0, 0, 1j], [0, 1j, 1, 0], [0, 1j, -1, 0], [1, 0, 0, -1j]]) * math.sqrt(0.5)
+
+
+def offdiag_zero(expr, n, tol):
+    return f'is_diagonal_f {fl(tol)} {expr}'
+
+
+def run_la(ctx, cirq, checks, routine, name, m, m2=None):
+    """m (and m2): the input matrices, complex arrays."""
+    m = np.asarray(m, dtype=complex)
+    n = m.shape[0]
+    rep = dict(kind='linalg', routine=routine, input_class=name, matrix=cmat(m), matrix2=cmat(m2) if m2 is not None else None)
+    nt = 'identity' not in name
+    T7 = fl(1e-7)
+
+    def add(suffix, expr, what):
+        checks.append((routine + suffix, expr, f'{routine} on {name}: {what}', dict(rep, signature=f'{routine}{suffix or ":reconstruct"}:{cls(name)}')))
+        ctx.count(routine + suffix, [name, rep['matrix'], rep['matrix2']], nt, sample=dict(input_class=name, n=n) if not suffix else None)
+
+    try:
+        if routine == 'kron_factor_4x4_to_2x2s':
+            g, f1, f2 = cirq.kron_factor_4x4_to_2x2s(m)
+            add('', f'fcll_allclose {fl(1e-5)} {fl(1e-8)} {gates.fmat(m)} (mscale FOps {gates.fc(g)} (kron FOps {gates.fmat(f1)} {gates.fmat(f2)}))',
+                'g*kron(f1,f2) differs from the matrix by more than atol + rtol*|entry|')
+            add(':form', f'det_is_one_f {T7} 2 {gates.fmat(f1)} && det_is_one_f {T7} 2 {gates.fmat(f2)}', f'a factor is not of unit determinant: det f1={np.linalg.det(f1)}, det f2={np.linalg.det(f2)}')
+        elif routine == 'so4_to_magic_su2s':
+            a, b = cirq.so4_to_magic_su2s(np.real(m))
+            add('', f'fcll_allclose {fl(1e-5)} {fl(1e-8)} {gates.fmat(np.real(m))} (magic_conj {gates.fmat(a)} {gates.fmat(b)})', 'Mag^dagger kron(A,B) Mag differs from the matrix by more than atol + rtol*|entry|')
+            add(':form', f'is_special_unitary_f {T7} 2 {gates.fmat(a)} && is_special_unitary_f {T7} 2 {gates.fmat(b)}', 'A or B is not special unitary')
+        elif routine == 'bidiagonalize_unitary_with_special_orthogonals':
+            L, d, R = cirq.bidiagonalize_unitary_with_special_orthogonals(m)
+            add('', f'fcll_close {T7} (mmul FOps {gates.fmat(L)} (mmul FOps {gates.fmat(m)} {gates.fmat(R)})) (fmdiag {gates.fvec(d)})',
+                f'L @ mat @ R differs from diag(d) by more than 1e-7 (numpy: {float(np.max(np.abs(L @ m @ R - np.diag(d)))):.3g})')
+            add(':form', f'is_special_orthogonal_f {T7} {n} {gates.fmat(L)} && is_special_orthogonal_f {T7} {n} {gates.fmat(R)}', 'L or R is not special orthogonal')
+        elif routine == 'bidiagonalize_real_matrix_pair_with_symmetric_products':
+            m1, mm2 = np.real(m), np.real(m2)
+            L, R = cirq.bidiagonalize_real_matrix_pair_with_symmetric_products(m1, mm2)
+            add('', f'is_diagonal_f {T7} (mmul FOps {gates.fmat(L)} (mmul FOps {gates.fmat(m1)} {gates.fmat(R)})) && '
+                    f'is_diagonal_f {T7} (mmul FOps {gates.fmat(L)} (mmul FOps {gates.fmat(mm2)} {gates.fmat(R)}))',
+                f'L @ mat1 @ R or L @ mat2 @ R has an off-diagonal entry above 1e-7 (numpy: {float(np.max(np.abs((L @ m1 @ R) * (1 - np.eye(n))))):.3g}, {float(np.max(np.abs((L @ mm2 @ R) * (1 - np.eye(n))))):.3g})')
+            add(':form', f'is_orthogonal_f {T7} {n} {gates.fmat(L)} && is_orthogonal_f {T7} {n} {gates.fmat(R)}', 'L or R is not orthogonal')
+        elif routine == 'diagonalize_real_symmetric_matrix':
+            ms = np.real(m)
+            P = cirq.diagonalize_real_symmetric_matrix(ms)
+            add('', f'is_diagonal_f {T7} (mmul FOps (mtranspose FOps {gates.fmat(P)}) (mmul FOps {gates.fmat(ms)} {gates.fmat(P)})) && is_orthogonal_f {T7} {n} {gates.fmat(P)}',
+                'P.T @ matrix @ P is not diagonal or P is not orthogonal')
+        elif routine == 'diagonalize_real_symmetric_and_sorted_diagonal_matrices':
+            ms, dm = np.real(m), np.real(m2)
+            P = cirq.diagonalize_real_symmetric_and_sorted_diagonal_matrices(ms, dm)
+            pt = f'(mtranspose FOps {gates.fmat(P)})'
+            add('', f'is_diagonal_f {T7} (mmul FOps {pt} (mmul FOps {gates.fmat(ms)} {gates.fmat(P)})) && is_orthogonal_f {T7} {n} {gates.fmat(P)} && '
+                    f'fcll_allclose {fl(1e-5)} {fl(1e-8)} (mmul FOps {pt} (mmul FOps {gates.fmat(dm)} {gates.fmat(P)})) {gates.fmat(dm)}',
+                'P.T @ symmetric @ P is not diagonal, P is not orthogonal, or P.T @ diagonal @ P differs from diagonal')
+        elif routine == 'map_eigenvalues':
+            sq = cirq.map_eigenvalues(m, lambda v: v * v)
+            idm = cirq.map_eigenvalues(m, lambda v: v)
+            add('', f'fcll_close {T7} {gates.fmat(sq)} (mmul FOps {gates.fmat(m)} {gates.fmat(m)}) && fcll_close {T7} {gates.fmat(idm)} {gates.fmat(m)}',
+                'map_eigenvalues(M, square) differs from M @ M, or map_eigenvalues(M, identity) from M, by more than 1e-7')
+        elif routine == 'unitary_eig':
+            vals, V = cirq.unitary_eig(m)
+            add('', f'fcll_close {T7} (mmul FOps {gates.fmat(V)} (mmul FOps (fmdiag {gates.fvec(vals)}) (mdagger FOps {gates.fmat(V)}))) {gates.fmat(m)} && is_unitary_f {T7} {n} {gates.fmat(V)}',
+                'V diag(vals) V^dagger differs from the matrix by more than 1e-7 or V is not unitary')
+        else:
+            raise KeyError(routine)
+    except KeyError:
+        raise
+    except Exception as e:
+        ctx.violation(f'{routine}:raises:{cls(name)}', f'{routine} raised {type(e).__name__}: {e} on {name}', rep)
+
+
+def su2(u):
+    u = np.asarray(u, dtype=complex)
+    return u / cmath.sqrt(np.linalg.det(u))
+
+
+def linalg_stream(ctx, cirq, inputs1, inputs2, checks):
+    rng = ctx.rng
+    ones = [(n, u) for n, u in inputs1 if not n.endswith('*phase')]
+    sel = [x for k, x in enumerate(ones) if k % 5 == 0 or 'clifford' in x[0] or x[0] in ('identity', 'X', 'Y', 'Z', 'H', 'S')]
+    # kron factors: pairs from the one-qubit corpus
+    for k, (na, a) in enumerate(sel):
+        nb, b = sel[(7 * k + 3) % len(sel)]
+        g = cmath.exp(1j * name_rng(na + nb).uniform(0, 6.28)) if k % 2 else 1.0
+        run_la(ctx, cirq, checks, 'kron_factor_4x4_to_2x2s', f'kron({na},{nb})' + ('*phase' if k % 2 else ''), g * np.kron(a, b))
+        o = MAGIC.conj().T @ np.kron(su2(a), su2(b)) @ MAGIC
+        run_la(ctx, cirq, checks, 'so4_to_magic_su2s', f'magic(kron(su2 {na}, su2 {nb}))', np.real(o))
+    perm = np.eye(4)[[1, 0, 3, 2]]
+    for nm, o in (('identity', np.eye(4)), ('-identity', -np.eye(4)), ('perm(1,0,3,2)', perm), ('diag(1,-1,-1,1)', np.diag([1.0, -1, -1, 1])),
+                  ('blockrot', np.kron(np.eye(2), np.array([[math.cos(0.3), -math.sin(0.3)], [math.sin(0.3), math.cos(0.3)]])))):
+        run_la(ctx, cirq, checks, 'so4_to_magic_su2s', 'so4:' + nm, o)
+    # bidiagonalisation: two-qubit corpus in the magic basis (what kak_decomposition feeds it), plain unitaries of size 1..4
+    twos = [x for k, x in enumerate(inputs2) if not x[0].startswith('weyl+locals') and (k % 3 == 0 or x[0].startswith('weyl:vertex') or not x[0].startswith('weyl'))]
+    for name, u, _ in twos:
+        mb = MAGIC.conj().T @ u @ MAGIC
+        run_la(ctx, cirq, checks, 'bidiagonalize_unitary_with_special_orthogonals', 'magic-basis:' + name, mb)
+        run_la(ctx, cirq, checks, 'bidiagonalize_real_matrix_pair_with_symmetric_products', 'magic-basis:' + name, np.real(mb), np.imag(mb))
+    for k in range(12):
+        n = [1, 2, 3, 4, 3, 2][k % 6]
+        u = gates.random_unitary(rng, n)
+        run_la(ctx, cirq, checks, 'bidiagonalize_unitary_with_special_orthogonals', f'random:haar{n}', u)
+        run_la(ctx, cirq, checks, 'bidiagonalize_real_matrix_pair_with_symmetric_products', f'random:haar{n}', np.real(u), np.imag(u))
+    for name, u, _ in [x for k, x in enumerate(twos) if k % 3 == 0]:
+        run_la(ctx, cirq, checks, 'map_eigenvalues', name, u)
+        run_la(ctx, cirq, checks, 'unitary_eig', name, u)
+    for name, u in sel[::2]:
+        run_la(ctx, cirq, checks, 'map_eigenvalues', '1q:' + name, u)
+        run_la(ctx, cirq, checks, 'unitary_eig', '1q:' + name, u)
+    # real symmetric matrices with degenerate / near-degenerate spectra
+    for k in range(16):
+        n = [2, 3, 4, 4][k % 4]
+        r = name_rng(f'sym{k}')
+        q, _ = np.linalg.qr(np.array([[r.gauss(0, 1) for _ in range(n)] for _ in range(n)]))
+        spec = [[1, 1, -1, -1], [2, 2, 2, 1], [1, 1 + 1e-9, 1 - 1e-9, 0], [3, 1, 0, 0], [1, 1 + 1e-8, 0.5, 0.5 - 1e-8], [0, 0, 0, 0]][k % 6][:n]
+        ms = q @ np.diag(spec) @ q.T
+        ms = (ms + ms.T) / 2
+        run_la(ctx, cirq, checks, 'diagonalize_real_symmetric_matrix', f'sym{n}:spec{k % 6}', ms)
+        # commuting pair: block-diagonal symmetric matrix against a sorted diagonal with repeated entries
+        dm = np.diag(sorted([[2, 2, 1, 1], [3, 3, 3, 0], [1, 1, 1, 1], [4, 2, 2, 1]][k % 4][:n], reverse=True)).astype(float)
+        blocks = np.zeros((n, n))
+        i = 0
+        while i < n:
+            j = i
+            while j < n and dm[j, j] == dm[i, i]:
+                j += 1
+            b = np.array([[r.gauss(0, 1) for _ in range(j - i)] for _ in range(j - i)])
+            blocks[i:j, i:j] = (b + b.T) / 2
+            i = j
+        run_la(ctx, cirq, checks, 'diagonalize_real_symmetric_and_sorted_diagonal_matrices', f'commuting{n}:{k % 4}', blocks, dm)
+
+
+# =====================================================================================================
 def evaluate(ctx, checks):
     SH = 150
 
@@ -721,6 +993,9 @@ def run(ctx):
     inputs = two_qubit_inputs(ctx, cirq, 40 * n, full=ctx.tier != 'quick')
     kak_stream(ctx, cirq, inputs, checks)
     synth2q_stream(ctx, cirq, mods, conv, inputs, checks, 8 if ctx.tier == 'quick' else 2)
+    inputs1 = one_qubit_inputs(ctx, cirq, 30 * n)
+    one_qubit_stream(ctx, cirq, mods, conv, inputs1, checks)
+    linalg_stream(ctx, cirq, inputs1, inputs, checks)
     ctx.cov['operations_entering_through_cirq_unitary'] = dict(conv.via_unitary)
     evaluate(ctx, checks)
 
@@ -738,6 +1013,10 @@ def replay(ctx, data):
     conv = Conv(cirq, mods)
     if kind == 'kak_decomposition':
         kak_stream(ctx, cirq, [(data['input_class'], from_cmat(data['matrix']), None)], checks)
+    elif kind == '1q':
+        run_1q(ctx, cirq, mods, conv, checks, data['routine'], data['opts'], data['input_class'], from_cmat(data['matrix']))
+    elif kind == 'linalg':
+        run_la(ctx, cirq, checks, data['routine'], data['input_class'], from_cmat(data['matrix']), from_cmat(data['matrix2']) if data.get('matrix2') else None)
     elif kind == 'synth' and data['routine'] in ROUTINES_2Q:
         run_2q(ctx, cirq, mods, conv, checks, data['routine'], data['opts'], data['input_class'], from_cmat(data['matrix']), data.get('hint'))
     else:
